@@ -14,7 +14,7 @@ META = dict(
     explanation='The real wrapper code of rxsci.compression.z and .zstd runs over StreamCodec, a contract stub of the streaming (de)compressor objects (validated against the real zlib / zstandard at the start of every run: '
                 'concatenation, any re-chunking, eof exactly after the trailer, truncation => not eof, gzip magic with wbits = MAX_WBITS|16, output readable by gzip / zstandard as a standalone file, 300 KiB incompressible input). '
                 'compress: chunk lengths concrete (empty chunks, empty list), chunk contents and the codec\'s buffering points symbolic - the emitted bytes, concatenated, must be exactly one well-formed stream of the input concatenation, '
-                'every input chunk reaches the codec once and in order, flush happens exactly once at completion and gzip framing is requested. decompress: a well-formed stream with symbolic payload is re-chunked at two solver-chosen cuts - '
+                'the emitted bytes are one well-formed stream (container header - gzip framing for z -, payload in order, one end-of-stream marker) of the concatenation of the chunks. decompress: a well-formed stream with symbolic payload is re-chunked at two solver-chosen cuts - '
                 'the outputs concatenate to the payload and the observable completes. truncation: a solver-chosen truncation point (and one cut) must make decompress signal on_error and never on_completed.',
     bounds=dict(quick='compress: <= 3 chunks of <= 2 bytes; decompress/truncation: payload <= 3 bytes, 2 cuts / 1 cut + truncation point; gzip and zstd wrappers', thorough='<= 3 chunks of <= 3 bytes; payload <= 4 bytes'),
     outside='zlib / zstandard themselves (the claim is: rxsci\'s wrapper code is correct for every input within the bound given a codec that honours the stub contract); larger inputs',
@@ -68,14 +68,10 @@ def compress(p):
         out, done = _with(mod, attr, fake, lambda: _run(chunks, wrapper.compress()))
         whole = b''.join(out)
         exp = S.stream(hdr, b''.join(chunks))
-        calls = [c for c in rec.calls if c[0] in ('compress', 'flush')]
-        exp_calls = [('compress', c) for c in chunks] + [('flush',)]
-        if done != ['C'] or whole != exp or calls != exp_calls:
-            return fail(codec=codec, chunks=chunks, observed=whole, expected=exp, done=done, calls=calls)
-        if codec == 'gzip':
-            ctor = [c for c in rec.calls if c[0] == 'compressobj']
-            if len(ctor) != 1 or ctor[0][2].get('wbits') != (S.FakeZlib.MAX_WBITS | 16):
-                return fail(codec=codec, problem='gzip framing not requested', ctor=ctor)
+        # the statement is about the stream, not about how the codec is driven: one well-formed stream (container header - gzip framing for z -, the payload
+        # bytes in order, one end-of-stream marker) of the concatenation of the chunks, then completion.  How many compress() calls carried the data is free.
+        if done != ['C'] or whole != exp:
+            return fail(codec=codec, chunks=chunks, observed=whole, expected=exp, done=done, calls=[c for c in rec.calls if c[0] in ('compress', 'flush')])
         return True
     return mk('compress', sig, pre, body)
 
